@@ -112,22 +112,22 @@ func (c17NopRep) Logf(string, ...any) {}
 
 // c17Val is the client's value: a scalar (one element) or a homogeneous leaf-list (1..8 elements).
 type c17Val struct {
-	Kind     string   `json:"kind"` // string ascii int uint bool bytes decimal float
-	List     bool     `json:"list,omitempty"`
-	Width    int      `json:"width,omitempty"`    // int/uint: 8 16 32 64
-	Prec     int      `json:"prec,omitempty"`     // decimal: 0..18
-	NoOpts   bool     `json:"noOpts,omitempty"`   // the model path carries no TypeOpts (ints <= 32 bit, decimals)
-	NilModel bool     `json:"nilModel,omitempty"` // with NoOpts: a nil model path instead of an empty one
+	Kind     string `json:"kind"` // string ascii int uint bool bytes decimal float
+	List     bool   `json:"list,omitempty"`
+	Width    int    `json:"width,omitempty"`    // int/uint: 8 16 32 64
+	Prec     int    `json:"prec,omitempty"`     // decimal: 0..18
+	NoOpts   bool   `json:"noOpts,omitempty"`   // the model path carries no TypeOpts (ints <= 32 bit, decimals)
+	NilModel bool   `json:"nilModel,omitempty"` // with NoOpts: a nil model path instead of an empty one
 	// ModelPrec > 0: the model reports this many fraction digits for the path although the client sends Prec
 	// (the value the client sent is what must be stored either way)
-	ModelPrec int `json:"modelPrec,omitempty"`
-	NilBytes bool     `json:"nilBytes,omitempty"` // scalar empty bytes held as nil instead of []byte{}
-	S        []string `json:"s,omitempty"`
-	I        []int64  `json:"i,omitempty"`
-	U        []uint64 `json:"u,omitempty"`
-	B        []bool   `json:"b,omitempty"`
-	Y        [][]byte `json:"y,omitempty"`
-	F        []uint32 `json:"f,omitempty"` // float32 bit patterns (never NaN)
+	ModelPrec int      `json:"modelPrec,omitempty"`
+	NilBytes  bool     `json:"nilBytes,omitempty"` // scalar empty bytes held as nil instead of []byte{}
+	S         []string `json:"s,omitempty"`
+	I         []int64  `json:"i,omitempty"`
+	U         []uint64 `json:"u,omitempty"`
+	B         []bool   `json:"b,omitempty"`
+	Y         [][]byte `json:"y,omitempty"`
+	F         []uint32 `json:"f,omitempty"` // float32 bit patterns (never NaN)
 }
 
 type c17Item struct {
